@@ -215,3 +215,14 @@ def run(rep, facts, tier):
     rep.add('C12.R4', 'C12.R4:relative_index:non-negative-boundary', pos_ok and sign,
             'non-negative index: Some exactly when i < len' if pos_ok and sign else
             'relative_index non-negative branch is not `i < len -> Some`: %s' % conds, rf.name, rf.j['span'])
+
+    # ---------- R4 (continued): index arguments reach the sequence words unchanged
+    from .. import casts
+    from .c08 import build_zone, type_of_operand
+    fns = [fn for fn in fx.fns if fn.startswith(('cell::', 'state::')) and 'tests::' not in fn]
+    n_c = 0
+    for (fn, frm, to, at, exact, why) in casts.lossy_user_casts(fx, fns, build_zone, type_of_operand):
+        n_c += 1
+        rep.add('C12.R4', 'C12.R4:lossy-cast:%s:%s->%s' % (fn, frm, to), exact, why if exact else
+                why + ' - an index beyond the machine word selects some other element (`[ 1 2 3 ] 18446744073709551616 nth` would be `0 nth`)', fn, at)
+    rep.add('C12.R4', 'C12.R4:lossy-casts-counted', True, '%d narrowing casts of user integers in cell.rs / state.rs examined' % n_c, None, None, nontrivial=False)
